@@ -332,3 +332,5 @@ def run(ctx):
 
     ctx.rule("C09.e", "projection class maps of the transformed classes are well typed", 8)
     check_class_maps(ctx, "C09.e", m)
+    # the transpose and the cumulative form start from copy(): everything recorded travels with it (shared with C12.a)
+    ctx.borrow("C12", ("HistogramBase.copy:with-contents", "HistogramBase.copy:"), "C09.c", floor=1)
